@@ -20,13 +20,13 @@ pub fn specs() -> Vec<PropSpec> {
     let mut v = vec![
         PropSpec {
             id: "C11",
-            stages: vec![Stage { engine: || Box::new(bsv_core::pure::PureBump), quick_cases: 16_000_000, thorough_cases: 1_600_000_000 }],
+            stages: vec![Stage { engine: || Box::new(bsv_core::pure::PureBump), quick_cases: 64_000_000, thorough_cases: 2_000_000_000 }],
             quick_budget_s: 600,
             thorough_budget_s: 7200,
         },
         PropSpec {
             id: "C12",
-            stages: vec![Stage { engine: || Box::new(bsv_core::pure::PureSize), quick_cases: 16_000_000, thorough_cases: 1_600_000_000 }],
+            stages: vec![Stage { engine: || Box::new(bsv_core::pure::PureSize), quick_cases: 48_000_000, thorough_cases: 1_600_000_000 }],
             quick_budget_s: 600,
             thorough_budget_s: 7200,
         },
@@ -43,39 +43,39 @@ pub fn specs() -> Vec<PropSpec> {
                 v.push(PropSpec { id: $id, stages: vec![$($st),+], quick_budget_s: 900, thorough_budget_s: 10800 });
             };
         }
-        prop!("C01", arena!("C01", 160_000, 4_000_000));
-        prop!("C02", arena!("C02", 160_000, 4_000_000));
-        prop!("C03", arena!("C03", 160_000, 4_000_000));
-        prop!("C05", arena!("C05", 160_000, 4_000_000));
-        prop!("C07", arena!("C07", 30_000, 800_000));
-        prop!("C10", arena!("C10", 120_000, 3_000_000));
-        prop!("C13", arena!("C13", 160_000, 4_000_000));
-        prop!("C14", arena!("C14", 160_000, 4_000_000));
-        prop!("C18", arena!("C18", 160_000, 4_000_000));
+        prop!("C01", arena!("C01", 500_000, 6_000_000));
+        prop!("C02", arena!("C02", 500_000, 6_000_000));
+        prop!("C03", arena!("C03", 500_000, 6_000_000));
+        prop!("C05", arena!("C05", 500_000, 6_000_000));
+        prop!("C07", arena!("C07", 100_000, 1_500_000));
+        prop!("C10", arena!("C10", 400_000, 5_000_000));
+        prop!("C13", arena!("C13", 500_000, 6_000_000));
+        prop!("C14", arena!("C14", 500_000, 6_000_000));
+        prop!("C18", arena!("C18", 500_000, 6_000_000));
         macro_rules! coll {
             ($id:literal, $q:expr, $t:expr) => {
                 Stage { engine: || Box::new(bsv_coll::coll::CollEngine::new($id)), quick_cases: $q, thorough_cases: $t }
             };
         }
-        prop!("C06", coll!("C06", 2_000_000, 50_000_000));
-        prop!("C08", coll!("C08", 2_000_000, 50_000_000), Stage { engine: || Box::new(bsv_coll::plain::PlainEngine), quick_cases: 1_000_000, thorough_cases: 25_000_000 });
-        prop!("C15", coll!("C15", 600_000, 15_000_000));
-        prop!("C16", coll!("C16", 1_500_000, 40_000_000));
+        prop!("C06", coll!("C06", 8_000_000, 100_000_000));
+        prop!("C08", coll!("C08", 8_000_000, 100_000_000), Stage { engine: || Box::new(bsv_coll::plain::PlainEngine), quick_cases: 4_000_000, thorough_cases: 50_000_000 });
+        prop!("C15", coll!("C15", 3_000_000, 40_000_000));
+        prop!("C16", coll!("C16", 5_000_000, 60_000_000));
         if let Some(p) = v.iter_mut().find(|p| p.id == "C07") {
-            p.stages.push(coll!("C07", 100_000, 2_000_000));
-            p.stages.push(Stage { engine: || Box::new(bsv_coll::strings::StrEngine { split_mix: false }), quick_cases: 300_000, thorough_cases: 8_000_000 });
+            p.stages.push(coll!("C07", 400_000, 5_000_000));
+            p.stages.push(Stage { engine: || Box::new(bsv_coll::strings::StrEngine { split_mix: false }), quick_cases: 1_000_000, thorough_cases: 12_000_000 });
         }
-        prop!("C09", Stage { engine: || Box::new(bsv_coll::strings::StrEngine { split_mix: false }), quick_cases: 2_000_000, thorough_cases: 50_000_000 });
+        prop!("C09", Stage { engine: || Box::new(bsv_coll::strings::StrEngine { split_mix: false }), quick_cases: 8_000_000, thorough_cases: 100_000_000 });
         if let Some(p) = v.iter_mut().find(|p| p.id == "C16") {
-            p.stages.push(Stage { engine: || Box::new(bsv_coll::strings::StrEngine { split_mix: true }), quick_cases: 500_000, thorough_cases: 12_000_000 });
+            p.stages.push(Stage { engine: || Box::new(bsv_coll::strings::StrEngine { split_mix: true }), quick_cases: 2_000_000, thorough_cases: 25_000_000 });
             // into_flattened, split_at_spare(_mut) live in engine B2
-            p.stages.push(Stage { engine: || Box::new(bsv_coll::plain::PlainEngine), quick_cases: 400_000, thorough_cases: 10_000_000 });
+            p.stages.push(Stage { engine: || Box::new(bsv_coll::plain::PlainEngine), quick_cases: 1_500_000, thorough_cases: 20_000_000 });
         }
-        prop!("C17", Stage { engine: || Box::new(bsv_lock::LockEngine), quick_cases: 2_000_000, thorough_cases: 50_000_000 });
-        prop!("C19", Stage { engine: || Box::new(bsv_pool::PoolEngine), quick_cases: 6_000, thorough_cases: 100_000 });
+        prop!("C17", Stage { engine: || Box::new(bsv_lock::LockEngine), quick_cases: 8_000_000, thorough_cases: 100_000_000 });
+        prop!("C19", Stage { engine: || Box::new(bsv_pool::PoolEngine), quick_cases: 12_000, thorough_cases: 150_000 });
         // C12: the real-arena half rides on engine A
         if let Some(p) = v.iter_mut().find(|p| p.id == "C12") {
-            p.stages.push(arena!("C12", 120_000, 3_000_000));
+            p.stages.push(arena!("C12", 300_000, 4_000_000));
         }
     }
     v
